@@ -106,3 +106,5 @@ def replay_unloadable(obligation=None, model=None, meta=None):
     finally:
         shutil.rmtree(tmp, ignore_errors=True)
     return {'confirmed': False, 'tried': n}
+
+replay_unloadable.real_system = True       # drives the real program on stock inputs: a crash inside repository code is a confirmed failure
